@@ -179,8 +179,11 @@ def gen_area_field(rng, ds):
     if kind == "count":
         area = [SCALE] * n
     elif kind == "weighted":
-        hi = rng.choice([3, 12, 40])
-        area = [rng.randint(1, hi) for _ in range(n)]
+        hi = rng.choice([3, 12, 40, 0])
+        if hi == 0:   # cell areas whose differences need more than float32's 24 bits (all sums exact in float64)
+            area = [(1 << 26) + rng.randint(0, 1 << 20) for _ in range(n)]
+        else:
+            area = [rng.randint(1, hi) for _ in range(n)]
     else:
         up = [rng.randint(0, 20) * rng.choice([1, SCALE]) if ds[i] != n else -9999 * SCALE for i in range(n)]
         return kind, None, up
@@ -470,6 +473,13 @@ def _pfaf(ctx, rng, env):
                 fs.append({"kind": "spec", "what": "code at depth d // 10 != code at depth d-1", **out, "shallow": res[d - 2][0]})
             ctx.count("pfaf:eq-compared" if a["tie"] == [0] else "pfaf:tie(certificates only)")
             ctx.count("pfaf:partition-side-condition=%d%s" % (a["model.ib_ok"][0], "" if genuine else "(arbitrary field)"))
+            ctx.count("pfaf:preconditions(pfaf_ok)=%d%s" % (a["pre_ok"][0], "" if genuine else "(arbitrary field)"))
+            if genuine and a["pre_ok"] != [1]:
+                fs.append({"kind": "spec", "what": "preconditions of theorem pfaf_ok not met by the arrays the implementation was "
+                           "run with (order downstream-first and complete, idxs_us_main total on cells with an inflow, uparea "
+                           "strictly larger downstream, distinct pits)", "depth": d})
+            if a["pre_ok"] == [1] and a["model.ib_ok"] != [1]:
+                fs.append({"kind": "model", "what": "theorem pfaf_ok contradicted: preconditions hold but the flag is cleared", "depth": d})
             if genuine and a["model.ib_ok"] != [1]:
                 fs.append({"kind": "model", "what": "side condition of theorem pfaf_partition (inter-basin outlets met in "
                            "down- to upstream order) not met by the model run on a genuine upstream-area field", "depth": d})
@@ -477,8 +487,12 @@ def _pfaf(ctx, rng, env):
                 if il != a["model.labels"] or io != a["model.idxs"]:
                     fs.append({"kind": "model", "what": "subbasins_pfafstetter: implementation != Lean model",
                                "depth": d, "impl": [il, io], "model": [a["model.labels"], a["model.idxs"]]})
-            if genuine and a["self.ok"] != [1]:
-                fs.append({"kind": "model", "what": "certificate rejects the model's own output", "depth": d})
+            if (genuine or a["pre_ok"] == [1]) and a["self.ok"] != [1]:
+                fs.append({"kind": "model", "what": "certificate rejects the model's own output (with pre_ok = 1 this would "
+                           "contradict theorems pfaf_partition_total / pfaf_digits / pfaf_linkOK)", "depth": d})
+            if (genuine or a["pre_ok"] == [1]) and a["self.refine_ok"] != [1]:
+                fs.append({"kind": "model", "what": "model map at depth d // 10 != model map at depth d-1 (with pre_ok = 1 this "
+                           "would contradict theorem pfaf_refine)", "depth": d})
             if not dtype_ok:
                 fs.append({"kind": "spec", "what": "label map dtype/shape"})
         return fs
